@@ -1310,4 +1310,75 @@ def specIntConverter (m : IntConverterM F) (st : St F) : IntConverterNode × St 
      unit := m.unit, representation := m.representation.getD .pureNumber,
      slope := m.slope.getD .automatic }, p.2)
 
+/-! ## Enumeration and its entries -/
+
+structure EnumEntryM (F : Type) [FloatLit F] where
+  /-- `Name` is the symbolic name of the entry -/
+  attr : AttrM
+  elem : ElemM
+  value : IntLit
+  numericValue : Option (FltLit F)
+  isSelfClearing : Option BoolLit
+
+def EnumEntryM.body (e : EnumEntryM F) : Body :=
+  (e.attr.render, flat (e.elem.segs [] ++
+    [ .one cs!"Value" (tb e.value.text),
+      .opt cs!"NumericValue" (e.numericValue.map fun l => tb l.text),
+      .opt cs!"IsSelfClearing" (e.isSelfClearing.map fun b => tb b.text) ]))
+
+/-- An entry is stored under the fresh name `$<symbolic>_<k>` (`k` = fresh-id counter); defaults
+`Custom` / `Mid`, no numeric value, not self clearing. -/
+def specEnumEntry (e : EnumEntryM F) (st : St F) : EnumEntryNode F × St F :=
+  let i := internS ('$' :: e.attr.name ++ '_' :: Nat.toDigits 10 st.fresh)
+    { st with fresh := st.fresh + 1 }
+  let el := specElem e.elem [] i.2
+  ({ attr := ⟨i.1, e.attr.nameSpace.getD .custom, e.attr.mergePriority.getD .mid,
+        e.attr.exposeStatic.map BoolLit.val⟩
+     elem := el.1, value := e.value.val, numericValue := e.numericValue.map FltLit.val
+     symbolic := e.attr.name
+     isSelfClearing := (e.isSelfClearing.map BoolLit.val).getD false }, el.2)
+
+/-- `store_node`: with debug assertions a second node under the same id panics -/
+def storeNodeS (pr : Profile) (id : Nat) (d : NodeData F) (st : St F) : R (St F) :=
+  if pr.debugAsserts && st.nodes.any (fun x => x.1 == id) then .panic
+  else .ok { st with nodes := st.nodes.filter (fun x => x.1 != id) ++ [(id, d)] }
+
+/-- every entry is parsed and stored; the enumeration keeps the ids in document order -/
+def enumEntriesS (pr : Profile) : List (EnumEntryM F) → St F → R (List Nat × St F)
+  | [], st => .ok ([], st)
+  | e :: es, st =>
+    (storeNodeS pr (specEnumEntry e st).1.attr.id (.enumEntry (specEnumEntry e st).1)
+        (specEnumEntry e st).2).bind fun st' =>
+      (enumEntriesS pr es st').bind fun r => .ok ((specEnumEntry e st).1.attr.id :: r.1, r.2)
+
+structure EnumerationM (F : Type) [FloatLit F] where
+  attr : AttrM
+  elem : ElemM
+  streamable : Option BoolLit
+  entries : List (EnumEntryM F)
+  /-- `Value` | `pValue` -/
+  value : IR IntLit
+  pSelected : List Str
+  pollingTime : Option UintLit
+
+def EnumerationM.children (m : EnumerationM F) : List Elem :=
+  flat (m.elem.segs [] ++
+    [ .opt cs!"Streamable" (m.streamable.map fun b => tb b.text),
+      .many cs!"EnumEntry" (m.entries.map EnumEntryM.body),
+      .one2 cs!"Value" cs!"pValue" (irBody IntLit.text m.value),
+      .many cs!"pSelected" (m.pSelected.map tb),
+      .opt cs!"PollingTime" (m.pollingTime.map fun l => tb l.text) ])
+def EnumerationM.render (m : EnumerationM F) : Elem :=
+  .node cs!"Enumeration" m.attr.render m.children
+
+def specEnumeration (pr : Profile) (m : EnumerationM F) (st : St F) : R (EnumerationNode × St F) :=
+  let a := specAttr m.attr st
+  let e := specElem m.elem [] a.2
+  (enumEntriesS pr m.entries e.2).bind fun en =>
+    let v := irIntIdS m.value en.2
+    let s := listS internS m.pSelected v.2
+    .ok ({ attr := a.1, elem := e.1, streamable := (m.streamable.map BoolLit.val).getD false,
+           entries := en.1, value := v.1, pSelected := s.1,
+           pollingTime := m.pollingTime.map UintLit.val }, s.2)
+
 end CamVerif.XmlParse
